@@ -2,6 +2,8 @@
 package vsync
 
 import (
+	realsync "sync"
+
 	"verif/vrt"
 )
 
@@ -111,17 +113,23 @@ func (w *WaitGroup) Wait() {
 
 // Pool is deterministic: LIFO free list, so that buffer reuse (and any
 // aliasing of pooled memory) happens on every execution.
+// (A real mutex guards the free list: sequential sweeps run on several real goroutines in pass-through mode; under
+// the controlled scheduler only one thread runs at a time, so the mutex is never contended there.)
 type Pool struct {
 	New  func() interface{}
 	free []interface{}
+	mu   realsync.Mutex
 }
 
 func (p *Pool) Get() interface{} {
+	p.mu.Lock()
 	if n := len(p.free); n > 0 {
 		x := p.free[n-1]
 		p.free = p.free[:n-1]
+		p.mu.Unlock()
 		return x
 	}
+	p.mu.Unlock()
 	if p.New != nil {
 		return p.New()
 	}
@@ -132,5 +140,7 @@ func (p *Pool) Put(x interface{}) {
 	if x == nil {
 		return
 	}
+	p.mu.Lock()
 	p.free = append(p.free, x)
+	p.mu.Unlock()
 }
